@@ -742,6 +742,14 @@ func c15judgeWire(rec *mon.Recorder, b []byte, cell, source string) {
 		}
 		for _, l := range []int64{-1, -2, -3, -4} {
 			vin, vout := refcose.Lookup(n, l), refcose.Lookup(n1, l)
+			if vin == nil && vout != nil {
+				rec.Violate("key-material-changed", fmt.Sprintf("%s/label=%d/appeared", source, l), fmt.Sprintf("parameter %d is absent from the key and present (%s) after re-encoding", l, diagOr(vout)), in)
+				return
+			}
+			if vin != nil && vout == nil {
+				rec.Violate("key-material-changed", fmt.Sprintf("%s/label=%d/vanished", source, l), fmt.Sprintf("parameter %d (%s) is gone after re-encoding", l, diagOr(vin)), in)
+				return
+			}
 			if vin == nil || vin.Major != refcbor.Bstr {
 				continue
 			}
